@@ -1256,8 +1256,8 @@ func H_C12_BelongsToRef(shape int) {
 				// a new region with a code of its own
 				target = &RegionRef{Code: "n" + string([]byte{byte('0' + k)})}
 			} else {
-				// an existing region (2, 3) or one that does not exist yet (5); generated keys start at 4
-				id := []int{2, 3, 5}[verifrt.Concretize(verifrt.Intn(tag+"_id", 0, 2), 0, 2)]
+				// an existing region (2, 3) or one that does not exist yet (9); generated keys are 4, 5, 6 and never reach it
+				id := []int{2, 3, 9}[verifrt.Concretize(verifrt.Intn(tag+"_id", 0, 2), 0, 2)]
 				target = &RegionRef{ID: uint(id), Code: code(id)}
 			}
 		}
